@@ -240,3 +240,95 @@ def _mk_iae(rnd):
     o = object.__new__(rnd.choice([ImageArrayEntry, ImageArrayEntryV2]))
     o.flags, o.image_meta_data = rnd.getrandbits(32), rnd.getrandbits(32)
     return o
+
+
+# ---- image array entry: the 128-byte record as the ROM reads it -------------------------------------------------------------------------------------
+from struct import unpack_from as _unpf  # noqa: E402
+
+inline("spsdk.image.ahab.ahab_iae:ImageArrayEntry.format", "spsdk.image.ahab.ahab_abstract_interfaces:Container.format",
+       "spsdk.image.ahab.ahab_abstract_interfaces:Container.fixed_length")
+
+
+def IAE(hash_len):
+    return Obj(ImageArrayEntry, _image_offset=U32, image_size=U32, load_address=U64, entry_point=U64, flags=U32, image_meta_data=U32,
+               image_hash=Bytes(hash_len), image_iv=Bytes(32))
+
+
+def _mk_iae_rec(rnd):
+    e = object.__new__(ImageArrayEntry)
+    e._image_offset, e.image_size, e.load_address, e.entry_point = rnd.getrandbits(32), rnd.getrandbits(32), rnd.getrandbits(64), rnd.getrandbits(64)
+    e.flags, e.image_meta_data = rnd.getrandbits(32), rnd.getrandbits(32)
+    e.image_hash = bytes(rnd.getrandbits(8) for _ in range(rnd.choice([32, 48, 64])))
+    e.image_iv = bytes(rnd.getrandbits(8) for _ in range(32))
+    return e
+
+
+@contract("spsdk.image.ahab.ahab_iae:ImageArrayEntry.export")
+def _(self: Union[IAE(32), IAE(48), IAE(64)]) -> bytes:
+    ensures(len(result) == 128, label="record-size")
+    ensures(result[0:4] == self._image_offset.to_bytes(4, "little") and result[4:8] == self.image_size.to_bytes(4, "little"), label="offset-and-size")
+    ensures(result[8:16] == self.load_address.to_bytes(8, "little") and result[16:24] == self.entry_point.to_bytes(8, "little"), label="load-address-and-entry-point")
+    ensures(result[24:28] == self.flags.to_bytes(4, "little") and result[28:32] == self.image_meta_data.to_bytes(4, "little"), label="flags-and-meta-data")
+    ensures(result[32: 32 + len(self.image_hash)] == self.image_hash and forall(32 + len(self.image_hash), 96, lambda k: result[k] == 0),
+            label="hash-left-aligned-zero-padded-to-64")
+    ensures(result[96:128] == self.image_iv, label="iv-behind-the-hash")
+    pure()
+    sample_with(lambda rnd: {"self": _mk_iae_rec(rnd)})
+
+
+# ---- signature block parts: signature container and DEK blob as they are laid down --------------------------------------------------------------------
+from spsdk.image.ahab.ahab_blob import AhabBlob  # noqa: E402
+from spsdk.ele.ele_constants import KeyBlobEncryptionAlgorithm  # noqa: E402
+from spsdk.image.ahab.ahab_signature import ContainerSignature  # noqa: E402
+
+inline("spsdk.image.ahab.ahab_signature:ContainerSignature.format", "spsdk.image.ahab.ahab_signature:ContainerSignature.__len__",
+       "spsdk.image.ahab.ahab_abstract_interfaces:HeaderContainer.format", "spsdk.image.ahab.ahab_abstract_interfaces:Container.__len__",
+       "spsdk.image.ahab.ahab_blob:AhabBlob.format")
+
+
+def _mk_sig(rnd):
+    s = ContainerSignature(signature_data=bytes(rnd.getrandbits(8) for _ in range(rnd.choice([0, 64, 96, 132, 256, 512]))))
+    return s
+
+
+@contract("spsdk.image.ahab.ahab_signature:ContainerSignature.export")
+def _(self: Obj(ContainerSignature, tag=Const(0xD8), version=Const(0), length=U16, _signature_data=Bytes(lo=0, hi=1024), signature_provider=Const(None))) -> bytes:
+    let(n=len(self._signature_data))
+    ensures(implies(n == 0, result == b""), label="no-signature-no-container")
+    ensures(implies(n > 0, len(result) == 8 + n and result[0] == 0 and result[1:3] == self.length.to_bytes(2, "little") and result[3] == 0xD8
+                    and result[4:8] == bytes(4) and result[8:] == self._signature_data), label="version-length-tag-reserved-then-the-signature")
+    pure()
+    sample_with(lambda rnd: {"self": _mk_sig(rnd)})
+
+
+@lemma("signature-container-announces-its-own-length")
+def _(sig: Union[Bytes(64), Bytes(96), Bytes(132), Bytes(256), Bytes(384), Bytes(512)]):
+    let(raw=ContainerSignature(signature_data=sig).export())
+    ensures(int.from_bytes(raw[1:3], "little") == len(raw) and len(raw) == 8 + len(sig), label="length-field-is-header-plus-signature")
+
+
+def _mk_blob(rnd):
+    size = rnd.choice([128, 192, 256])
+    return AhabBlob(flags=rnd.choice([0x80, 0x01, 0x81]), size=size, mode=rnd.getrandbits(8), dek_keyblob=bytes(rnd.getrandbits(8) for _ in range(size // 8 + 48)))
+
+
+@contract("spsdk.image.ahab.ahab_blob:AhabBlob.export")
+def _(self: Obj(AhabBlob, tag=Const(0x81), version=Const(0), length=U16, flags=U8, _size=OneOf(128, 192, 256), mode=U8,
+                algorithm=OneOf(*list(KeyBlobEncryptionAlgorithm)), dek_keyblob=Bytes(lo=0, hi=128))) -> bytes:
+    ensures(len(result) == 8 + len(self.dek_keyblob), label="head-then-wrapped-key")
+    ensures(result[0] == 0 and result[1:3] == self.length.to_bytes(2, "little") and result[3] == 0x81, label="version-length-tag")
+    ensures(result[4] == self.flags and result[5] == self._size // 8 and result[6] == self.algorithm.tag and result[7] == self.mode, label="flags-size-algorithm-mode")
+    ensures(result[8:] == self.dek_keyblob, label="wrapped-key-as-given")
+    pure()
+    sample_with(lambda rnd: {"self": _mk_blob(rnd)})
+
+
+inline("spsdk.image.ahab.ahab_blob:AhabBlob.__init__", "spsdk.image.ahab.ahab_abstract_interfaces:HeaderContainer.__init__",
+       "spsdk.image.ahab.ahab_blob:AhabBlob.compute_keyblob_size", "spsdk.image.ahab.ahab_signature:ContainerSignature.__init__")
+
+
+@lemma("dek-blob-announces-header-plus-wrapped-key")
+def _(size: OneOf(128, 192, 256), mode: U8):
+    # the wrapped key of a size-bit DEK has size/8 + 48 bytes (compute_keyblob_size); the length field covers the 8-byte head as well
+    let(b=AhabBlob(size=size, mode=mode))
+    ensures(b.length == 8 + AhabBlob.compute_keyblob_size(size), label="length-field-is-head-plus-keyblob-size")
